@@ -95,13 +95,14 @@ Definition include_part (n : bytes) : bytes := if contains_byte 46 n then take_u
 Definition param_part (n : bytes) : bytes :=
   if contains_byte 46 n then skipn (S (length (take_until_eq 46 n))) n else n.
 
-(** isValidType: Some b, or None for the nil dereference on a bare container name *)
+(** isValidType: Some b (a bare container name, whose element type is nil, is invalid since the
+    repair of the nil dereference; the option is kept so that a reintroduced panic is expressible) *)
 Fixpoint valid_type (f : frugal) (incs : list (bytes * ftree)) (t : ptype) : option bool :=
   match t with
   | PType n k v _ =>
     if existsb (beqb n) base_types then Some true
     else if beqb n s_list || beqb n s_set then
-      match v with Some vt => valid_type f incs vt | None => None end
+      match v with Some vt => valid_type f incs vt | None => Some false end
     else if beqb n s_map then
       match k, v with
       | Some kt, Some vt =>
@@ -109,7 +110,7 @@ Fixpoint valid_type (f : frugal) (incs : list (bytes * ftree)) (t : ptype) : opt
         | Some true => valid_type f incs vt
         | other => other
         end
-      | _, _ => None
+      | _, _ => Some false
       end
     else
       let inc := include_part n in
@@ -129,6 +130,9 @@ Fixpoint vall {X} (p : X -> vres) (l : list X) : vres :=
 
 Definition has_ann (name : bytes) (a : annotations) : bool := existsb (fun p => beqb (fst p) name) a.
 
+Definition has_enum_value (f : frugal) (en vn : bytes) : bool :=
+  existsb (fun e => beqb en (en_name e) && existsb (fun v => beqb vn (ev_name v)) (en_values e)) (fr_enums f).
+
 Definition validate_constant (f : frugal) (incs : list (bytes * ftree)) (c : constant) : vres :=
   vand (of_type (valid_type f incs (c_type c))) (fun _ =>
     match c_value c with
@@ -137,14 +141,52 @@ Definition validate_constant (f : frugal) (incs : list (bytes * ftree)) (c : con
       match pieces with
       | [_] => of_bool (existsb (fun x => beqb name (c_name x)) (fr_constants f))
       | [inc; pn] =>
+        (* a value of an enum of this file, else a constant of this file / an include *)
+        if has_enum_value f inc pn then VOk else
         match (if beqb inc [] then Some f else option_map ft_frugal (inc_get incs inc)) with
         | None => VErr
         | Some fr => of_bool (existsb (fun x => beqb pn (c_name x)) (fr_constants fr))
+        end
+      | [inc; en; vn] =>
+        (* a value of an enum of an include *)
+        match option_map ft_frugal (inc_get incs inc) with
+        | Some fr => of_bool (has_enum_value fr en vn)
+        | None => VErr
         end
       | _ => VErr
       end
     | _ => VOk
     end).
+
+(** validateTypedefs' circularity check: repeatedly mark the typedefs defined in terms of marked
+    typedefs only (typedefIndex: the last declaration of a name wins) *)
+Fixpoint td_lookup (tds : list typedef) (n : bytes) : option typedef :=
+  match tds with
+  | [] => None
+  | t :: r => match td_lookup r n with
+              | Some x => Some x
+              | None => if beqb (td_name t) n then Some t else None
+              end
+  end.
+Fixpoint tds_resolved (f : frugal) (resolved : list bytes) (t : ptype) : bool :=
+  match t with
+  | PType n k v _ =>
+    if (match td_lookup (fr_typedefs f) n with Some _ => true | None => false end)
+       && negb (existsb (beqb n) resolved)
+    then false
+    else (match k with Some kt => tds_resolved f resolved kt | None => true end)
+         && (match v with Some vt => tds_resolved f resolved vt | None => true end)
+  end.
+Definition mark_pass (f : frugal) (resolved : list bytes) : list bytes :=
+  fold_left (fun res td =>
+               if existsb (beqb (td_name td)) res then res else
+               match td_lookup (fr_typedefs f) (td_name td) with
+               | Some t0 => if tds_resolved f res (td_type t0) then td_name td :: res else res
+               | None => res
+               end) (fr_typedefs f) resolved.
+Definition typedefs_acyclic (f : frugal) : bool :=
+  let resolved := Nat.iter (S (length (fr_typedefs f))) (mark_pass f) [] in
+  forallb (fun td => existsb (beqb (td_name td)) resolved) (fr_typedefs f).
 
 Definition validate_struct (f : frugal) (incs : list (bytes * ftree)) (s : struct) : vres :=
   (* field by field: type first, then the duplicate-id check against the earlier fields *)
@@ -177,11 +219,12 @@ Definition validate (f : frugal) (incs : list (bytes * ftree)) : vres :=
   vand (of_bool (negb (has_dup (map i_name (fr_includes f))))) (fun _ =>
   vand (vall (validate_constant f incs) (fr_constants f)) (fun _ =>
   vand (vall (fun t => of_type (valid_type f incs (td_type t))) (fr_typedefs f)) (fun _ =>
+  vand (of_bool (typedefs_acyclic f)) (fun _ =>
   vand (vall (validate_struct f incs) (fr_structs f)) (fun _ =>
   vand (vall (validate_struct f incs) (fr_unions f)) (fun _ =>
   vand (vall (validate_struct f incs) (fr_exceptions f)) (fun _ =>
   vand (vall (validate_service f incs) (fr_services f)) (fun _ =>
-        vall (fun s => vall (fun o => of_type (valid_type f incs (o_type o))) (sc_ops s)) (fr_scopes f))))))))))))).
+        vall (fun s => vall (fun o => of_type (valid_type f incs (o_type o))) (sc_ops s)) (fr_scopes f)))))))))))))).
 
 (** ** sort.Sort(scopesByName): names are pairwise distinct after validate, so any sort agrees *)
 Fixpoint bytes_ltb (a b : bytes) : bool :=
